@@ -171,3 +171,18 @@ def c17_backslash_before_quote(rp):         # known: an odd run of backslashes o
 
 def c04_cert_subject_revoked(rp):           # fixed 58fab7a
     return rp.get('kind') == 'cert_subject_revoked' and rp.get('presented', {}).get('form') == 'cert'
+
+
+def c13_symlink_via_link_dir(rp):
+    return rp.get('kind') == 'e2e_symlink' and not any(o[0].startswith(('rename', 'posix_rename')) for o in rp.get('ops', []))
+
+
+def c13_symlink_rename(rp):
+    ops = rp.get('ops', [])
+    return rp.get('kind') == 'e2e_symlink' and bool(ops) and ops[-1][0].startswith(('rename ', 'posix_rename ')) \
+        and ' dir ' not in ops[-1][0][:18]
+
+
+def c13_dir_rename_moves_symlink(rp):
+    # only the specific history "violation observed right after renaming a directory (not a link)"
+    return rp.get('kind') == 'e2e_symlink' and rp.get('after_dir_rename') is True
